@@ -23,6 +23,7 @@ type vWorld struct {
 	a     [vMaxRows]vCell
 	b     [vMaxRows]vCell
 	count int
+	dense int // anonymous live rows (dense pre-state), not tracked individually
 	// pending effects of the running transaction
 	pn    int
 	pOp   [8]int // 0 put a, 1 merge a, 2 put b, 3 delete, 4 insert
@@ -44,6 +45,8 @@ func vFamily(f int) []uint32 {
 		return []uint32{5, 40000}
 	case 4:
 		return []uint32{0, 1, 2, 3}
+	case 5: // block 0 completely full (anonymous rows), tracked rows at the start of block 1
+		return []uint32{16384, 16385, 16386}
 	}
 	return nil
 }
@@ -54,11 +57,27 @@ func vNewWorld(capacity int, kind vKind, fam int, opts Options) *vWorld {
 	w.c.CreateColumn("a", vMakeColumn(kind))
 	w.c.CreateColumn("b", ForInt64())
 	offs := vFamily(fam)
-	vSeedRows(w.c, offs)
-	for _, o := range offs {
+	// every pre-existing row holds a value in the witness column b (so that a deleted row leaves
+	// something behind that a later occupant of the offset must not see)
+	vals := make([]uint64, len(offs))
+	for i := range vals {
+		vals[i] = vndU64("seedb")
+	}
+	vSeedRowsB(w.c, offs, vals)
+	for i, o := range offs {
 		w.off[w.n], w.live[w.n] = o, true
+		w.b[w.n] = vCell{has: true, num: vals[i]}
 		w.n++
 		w.count++
+	}
+	if fam == 5 {
+		// P-dense: every row of block 0 is live and holds nothing (representation invariant kept:
+		// count = population of the fill list, no column holds a value for these rows)
+		for i := 0; i < 256; i++ {
+			w.c.fill[i] = ^uint64(0)
+		}
+		w.c.count += 16384
+		w.dense = 16384
 	}
 	return w
 }
@@ -203,7 +222,11 @@ func (w *vWorld) clearPending() {
 
 // check compares everything observable through the public API with the model.
 func (w *vWorld) check(c *Collection, what string) {
-	vndAssert(c.Count() == w.count, what+": Count differs from the number of live rows")
+	vndAssert(c.Count() == w.count+w.dense, what+": Count differs from the number of live rows")
+	if w.dense > 0 {
+		w.checkRows(c, what)
+		return
+	}
 	// the live set, in ascending order, is exactly the model's
 	live := vLiveSet(c, vMaxRows+1)
 	nlive := 0
@@ -220,6 +243,10 @@ func (w *vWorld) check(c *Collection, what string) {
 			vndAssert(live[i-1] < o, what+": Range is not in ascending offset order")
 		}
 	}
+	w.checkRows(c, what)
+}
+
+func (w *vWorld) checkRows(c *Collection, what string) {
 	for i := 0; i < w.n; i++ {
 		if !w.live[i] {
 			continue
